@@ -15,7 +15,7 @@ import (
 func init() {
 	register(&Pack{ID: "C18", Run: runC18, Meta: core.Meta{
 		Level:       "other",
-		Explanation: "EXPLICITLY WEAK. The property is a refinement over unbounded operation histories resting on a heap-shape invariant (every level a sorted sub-chain of the level below) and on random node heights; that needs shape analysis and is NOT decided. Decided are necessary conditions visible in the shape of the code (staged package internal/maplike/skiplist), independent of how the loops are written (helpers are inlined with their loops; a segment between two loop heads is classified by the successor cand = cursor.fingers[index] it inspects). compare-normal-form - keys are touched only through the order trait's Compare; in the two traversal functions (discovered as the callees of Put/Remove and Get) the only key compared is that of cand, after cand != nil, and the advance condition normalises to 'node key < search key'; the two traversals agree (siblings); in Put/Get/Remove the match condition normalises to 'equal' on the node the traversal returned. level-loops - index = level counter + c for one constant c; every traversal enters its level loop with index = L - 1, L being len(head.fingers), len(path) or the constructor's level field of the list (starting lower leaves the upper path entries stale); a pass of the level loop begins iff index >= 0 and the loop is left iff index < 0 (decided by evaluating the branch atoms over a window of integers), 'less' keeps the counter, 'stop' (nil or not less) decrements it by exactly one at the level loop's head; Put splices exactly the levels 0 .. height-1 of the new node (trip count len(node.fingers), or the constructor's rank when that is the length of the finger slice it builds); a new node's height is a counter from 0 incremented only under counter < list.levels, hence <= len(path) = len(head.fingers); Remove's loop covers every level of the removed node. traversal-effects - the cursor starts at the head; 'less' sets cursor := cand (and refreshes a cached finger slice, related by the invariant cached = cursor.fingers that is assumed at the start of every segment and proved at its end); 'stop' keeps the cursor and, in the path-recording traversal, stores path[index] := cursor exactly once; no other store; the result is the level-0 successor of the final cursor (and the path). splice-order - node.fingers[l] is read from path[l].fingers[l] BEFORE path[l].fingers[l] := node. unlink - a finger is overwritten only where path[l].fingers[l] == v, with v.fingers[l] when l < len(v.fingers) else nil. results - Get/Remove return the value of the node their traversal returned only under 'equal', the zero value otherwise, and no other source of values exists (no cache); Put on 'equal' performs only v.val := val (an assertion exit guarded by 'new node's height > number of levels' is unreachable by the height bound and is no result). print-walk - the list's String() carries one node cursor that enters as list.head, is advanced to cursor.fingers[0], leaves the loop iff nil and is rendered in every pass; print-pure - String() keeps no state. That the level-0 chain is ascending and holds exactly the live keys rests on the undecided invariant.",
+		Explanation: "EXPLICITLY WEAK. The property is a refinement over unbounded operation histories resting on a heap-shape invariant (every level a sorted sub-chain of the level below) and on random node heights; that needs shape analysis and is NOT decided. Decided are necessary conditions visible in the shape of the code (staged package internal/maplike/skiplist), independent of how the loops are written (helpers are inlined with their loops; a segment between two loop heads is classified by the successor cand = cursor.fingers[index] it inspects). compare-normal-form - keys are touched only through the order trait's Compare; in the two traversal functions (discovered as the callees of Put/Remove and Get) the only key compared is that of cand, after cand != nil, and the advance condition normalises to 'node key < search key'; the two traversals agree (siblings); in Put/Get/Remove the match condition normalises to 'equal' on the node the traversal returned. level-loops - index = level counter + c for one constant c; every traversal enters its level loop with index = L - 1, L being len(head.fingers), len(path) or the constructor's level field of the list (starting lower leaves the upper path entries stale); a pass of the level loop begins iff index >= 0 and the loop is left iff index < 0 (decided by evaluating the branch atoms over a window of integers), 'less' keeps the counter, 'stop' (nil or not less) decrements it by exactly one at the level loop's head; Put splices exactly the levels 0 .. height-1 of the new node (trip count len(node.fingers), or the constructor's rank when that is the length of the finger slice it builds); a new node's height is a counter from 0 incremented only under counter < list.levels, hence <= len(path) = len(head.fingers); Remove's loop covers every level of the removed node. traversal-effects - the cursor starts at the head; 'less' sets cursor := cand (and refreshes a cached finger slice, related by the invariant cached = cursor.fingers that is assumed at the start of every segment and proved at its end); 'stop' keeps the cursor and, in the path-recording traversal, stores path[index] := cursor exactly once; no other store; the result is the level-0 successor of the final cursor (and the path). splice-order - node.fingers[l] is read from path[l].fingers[l] BEFORE path[l].fingers[l] := node. unlink - a finger is overwritten only where path[l].fingers[l] == v, with v.fingers[l] when l < len(v.fingers) else nil. results - Get/Remove return the value of the node their traversal returned only under 'equal', the zero value otherwise, and no other source of values exists (no cache); Put on 'equal' performs only v.val := val (an assertion exit guarded by 'new node's height > number of levels' is unreachable by the height bound and is no result). nil-guard - every field access through the node a traversal returned is dominated by the non-nil side of a test of that node (or by the true side of a package helper that answers true only for a non-nil argument). print-walk - the list's String() carries one node cursor that enters as list.head, is advanced to cursor.fingers[0], leaves the loop iff nil and is rendered in every pass; print-pure - String() keeps no state. That the level-0 chain is ascending and holds exactly the live keys rests on the undecided invariant.",
 		RuleText:    "one obligation per (rule, function)",
 		Assumptions: []string{"the comparison trait is a total order (premise of the property)"},
 		TrustedBase: []string{"go/ssa", "path engine P"},
